@@ -466,6 +466,9 @@ func (a *AndExpr) String() string {
 
 // NullableVisit recursively determines whether an object is nullable.
 func (a *AndExpr) NullableVisit(rules map[string]*Rule) bool {
+	// the predicate itself consumes nothing, but its operand is evaluated at the
+	// same position, so the operand's nullability is needed for InitialNames
+	a.Expr.NullableVisit(rules)
 	return true
 }
 
@@ -476,7 +479,9 @@ func (a *AndExpr) IsNullable() bool {
 
 // InitialNames returns names of nodes with which an expression can begin.
 func (a *AndExpr) InitialNames() map[string]struct{} {
-	return make(map[string]struct{})
+	// a rule referenced at the start of a lookahead is invoked at the current
+	// position: &A inside A is left recursion
+	return a.Expr.InitialNames()
 }
 
 // NotExpr is a zero-length matcher that is considered a match if the
@@ -503,6 +508,8 @@ func (n *NotExpr) String() string {
 
 // NullableVisit recursively determines whether an object is nullable.
 func (n *NotExpr) NullableVisit(rules map[string]*Rule) bool {
+	// see AndExpr.NullableVisit
+	n.Expr.NullableVisit(rules)
 	return true
 }
 
@@ -513,7 +520,8 @@ func (n *NotExpr) IsNullable() bool {
 
 // InitialNames returns names of nodes with which an expression can begin.
 func (n *NotExpr) InitialNames() map[string]struct{} {
-	return make(map[string]struct{})
+	// see AndExpr.InitialNames
+	return n.Expr.InitialNames()
 }
 
 // ZeroOrOneExpr is an expression that can be matched zero or one time.
